@@ -407,6 +407,19 @@ theorem C17_released_iff_covered (c : Cfg) :
   · intro hc pre tasks commitOk
     exact C17_released c hc pre tasks commitOk cleanDb (by decide)
 
+/-! ### the request's context -/
+
+/-- release and atomicity hold whenever (if ever) the request's context is cancelled -/
+theorem C17_released_any_ctx (c : Cfg) (hc : c.allCovered = true) (pre : Pre) (tasks : List Task)
+    (commitOk : Bool) (k : Option Nat) (d0 : Db) (h0 : d0.clean = true) :
+    released (handlerCtx c pre tasks commitOk k d0).db = true :=
+  C17_released c hc pre tasks commitOk d0 h0
+
+theorem C17_atomic_any_ctx (c : Cfg) (hc : c.commitErrFail = true) (pre : Pre) (tasks : List Task)
+    (commitOk : Bool) (k : Option Nat) (d0 : Db) (h0 : d0.clean = true) (hn : noTxControl tasks = true) :
+    atomic d0 tasks (handlerCtx c pre tasks commitOk k d0) :=
+  C17_atomic_partial c hc pre tasks commitOk d0 h0 hn
+
 /-! ### non-vacuity -/
 
 -- the hypotheses of the theorems are met by the fixed configuration and a non-trivial request
